@@ -3,12 +3,12 @@
 
   Property theorems about the transcription in `XgiModel/C15/Simp.lean` (the functions the driver runs).
   Hypotheses: `Dom h` = well-formed static network (distinct node and edge IDs, members are duplicate-free
-  lists of nodes), no empty edge, labels all ints or all strs; `1 ≤ minSize` where the empty node set would
-  otherwise be enumerated as a sub-face.  Repeated edges are *not* excluded: every theorem holds for them too
+  lists of nodes), labels all ints or all strs (empty edges are allowed); `1 ≤ minSize` where the empty node
+  set would otherwise be enumerated as a sub-face.  Repeated edges are *not* excluded: every theorem holds for them too
   (edges counted with multiplicity, node sets counted once), so the property's "no repeated edges" is implied.
   The right-hand sides are the brute-force `spec…` functions (plain enumeration of all node subsets).
 -/
-import XgiModel.C15.LemmasFinal
+import XgiModel.C15.LemmasExamples
 
 namespace Xgi.C15
 
@@ -31,9 +31,9 @@ theorem trie_spec_set {S : List PyId} (hS : Orderable S) (ws : List (List PyId))
     exact ⟨e, he, (sorted_eq_iff hS (hws e he).2 (hws e he).1 hw).mpr hs⟩
 
 /-- **maximal_spec**: the loop of `EdgeView.maximal()` returns, in view order, exactly the edges that are not
-    properly contained in another edge (and does not raise). -/
+    properly contained in another edge (and does not raise; an empty edge is maximal only if every edge is empty). -/
 theorem maximal_spec {h : Net} (D : Dom h) : maximalEdges h = some (specMaximal h) :=
-  maximalEdges_eq D.wf D.nonempty
+  maximalEdges_eq D.wf
 
 /-- **sed_eq**: `simplicial_edit_distance(normalize=False)` is NaN when there is no eligible maximal edge and
     otherwise the number of node sets of size ≥ min_size that lie inside an eligible maximal edge and are not
@@ -58,7 +58,7 @@ theorem sf_eq {h : Net} (D : Dom h) (m : Nat) (x : Bool) : simplicialFraction h 
     (normalize) or number of proper sub-faces of size ≥ min_size that are not edges; 0 when there is none. -/
 theorem mfed_eq {h : Net} (D : Dom h) (m : Nat) (hm : 1 ≤ m) (x nz : Bool) :
     meanFaceEditDistance h m x nz = some (specMFED h m x nz) :=
-  meanFaceEditDistance_eq D.wf D.nonempty D.ord m hm x nz
+  meanFaceEditDistance_eq D.wf D.ord m hm x nz
 
 /-- **range** (edit distance and edit simpliciality): NaN or in [0, 1]. -/
 theorem range_sed {h : Net} (D : Dom h) (m : Nat) (hm : 1 ≤ m) (x : Bool) :
@@ -108,21 +108,8 @@ theorem closed_one_sf {h : Net} (D : Dom h) (m : Nat) (x : Bool) (hc : downClose
 
 /-! ### non-vacuity: concrete networks in the domain, with the values the theorems give -/
 
-/-- {1,2,3}, {1,2}, {3,4} on nodes 1..4 (edge {1,3}, {2,3} missing) -/
-def ex1 : Net :=
-  { nodes := [.int 1, .int 2, .int 3, .int 4],
-    edges := [(.int 0, [.int 1, .int 2, .int 3]), (.int 1, [.int 1, .int 2]), (.int 2, [.int 3, .int 4])] }
-
-/-- the closure of {a,b,c} above size 2, string labels, unordered members -/
-def ex2 : Net :=
-  { nodes := [.str "c", .str "a", .str "b"],
-    edges := [(.str "e0", [.str "c", .str "a", .str "b"]), (.int 5, [.str "b", .str "a"]),
-              (.int 1, [.str "c", .str "a"]), (.int 2, [.str "c", .str "b"])] }
-
-theorem ex1_dom : Dom ex1 :=
-  ⟨by unfold Net.WF ex1; decide, by unfold ex1; decide, by unfold Orderable ex1; decide⟩
-theorem ex2_dom : Dom ex2 :=
-  ⟨by unfold Net.WF ex2; decide, by unfold ex2; decide, by unfold Orderable ex2; decide⟩
+-- `ex1`, `ex2`, `ex3` and the proofs `ex1_dom`, `ex2_dom`, `ex3_dom` that they lie in `Dom` are in
+-- `XgiModel/C15/LemmasExamples.lean` (helpers, not property statements).
 
 example : simplicialEditDistance ex1 2 true false = some (.val 2) := by
   rw [sed_eq ex1_dom 2 (by decide)]
@@ -143,6 +130,33 @@ example : simplicialFraction ex2 2 true = .val 1 := by
   rw [closed_one_sf ex2_dom 2 true (by decide)]
   have : (ex2.edges.filter (fun p => decide (2 + true.toNat ≤ p.2.length))).length = 1 := by decide
   rw [this]; rfl
+/-- `min_size = 4`: the 5-node face of `ex3` misses exactly one 4-node sub-face; normaliser C(5,4) = 5 -/
+example : simplicialEditDistance ex3 4 false false = some (.val 1) := by
+  rw [sed_eq ex3_dom 4 (by decide)]
+  have h1 : (specFaces ex3 4 false).isEmpty = false := by decide
+  have h2 : specSED ex3 4 false = 1 := by decide
+  simp [h1, h2]
+example : maxNumberOfSubfaces 4 5 = 5 := by decide
+/-- … and `mean_face_edit_distance(min_size=4)` of `ex3` is 1/5 (one of C(5,4) = 5 proper sub-faces missing) -/
+example : meanFaceEditDistance ex3 4 false true = some (1/5) := by
+  rw [mfed_eq ex3_dom 4 (by decide)]
+  have h : specMFED ex3 4 false true = 1/5 := by
+    unfold specMFED specFaceDistance
+    have h1 : specFaces ex3 4 false = [(.int 0, [.int 0, .int 1, .int 2, .int 3, .int 4])] := by decide
+    have h2 : ((specSubfaces ex3 4 [.int 0, .int 1, .int 2, .int 3, .int 4]).filter
+        (fun t => !isEdge ex3 t)).length = 1 := by decide
+    have h3 : (specSubfaces ex3 4 [.int 0, .int 1, .int 2, .int 3, .int 4]).length = 5 := by decide
+    have h4 : specSubfaces ex3 4 [.int 0, .int 1, .int 2, .int 3, .int 4] ≠ [] := by decide
+    simp [h1, h2, h3, h4]
+  rw [h]
+example : downClosed ex3 4 = false := by decide
+/-- an empty edge next to {1,2}: inside the domain, not maximal, and it changes no count -/
+example : (specMaximal ex4).map (·.1) = [.int 1] := by decide
+example : simplicialEditDistance ex4 1 false false = some (.val 2) := by
+  rw [sed_eq ex4_dom 1 (by decide)]
+  have h1 : (specFaces ex4 1 false).isEmpty = false := by decide
+  have h2 : specSED ex4 1 false = 2 := by decide
+  simp [h1, h2]
 example : (buildTrie [[.int 3, .int 1], [.int 2]]).search [.int 1, .int 3] = true := by
   rw [trie_spec_set (S := [.int 1, .int 2, .int 3]) (by unfold Orderable; decide) _ (by decide) _ (by decide)]
   exact ⟨[.int 3, .int 1], by simp, by intro x; simp; tauto⟩
